@@ -8,6 +8,7 @@ mod c04;
 mod c04s;
 mod c05;
 mod c06;
+mod c07;
 mod c09;
 mod c10;
 mod c12;
@@ -96,6 +97,7 @@ fn main() {
         "C04" => c04::run(&ctx),
         "C05" => c05::run(&ctx),
         "C06" => c06::run(&ctx),
+        "C07" => c07::run(&ctx),
         "C09" => c09::run(&ctx),
         "C10" => c10::run(&ctx),
         "C12" => c12::run(&ctx),
